@@ -1,4 +1,6 @@
 import YardlProofs.WireStream
+import YardlProofs.StreamsW
+import YardlProofs.StreamsR
 
 /-!
 # C01 — Binary write/read round trip and wire-format conformance
@@ -44,6 +46,55 @@ theorem varint_round_trip (n : Nat) (rest : Bytes) : decVar (encVar n ++ rest) =
   decVar_encVar n rest
 
 theorem zigzag_round_trip (i : Int) : unzigzag (zigzag i) = i := unzigzag_zigzag i
+
+/-! ### Buffered streams: values that straddle the staging buffer
+
+The C++ `CodedOutputStream` model emits exactly the concatenation of the per-operation bytes for
+*every* buffer capacity ≥ 10, every initial fill level and *every* operation sequence (so for the
+sequence any serializer issues, for any value), and no unchecked write leaves the buffer. -/
+theorem cpp_writer_refines (s : COS) (ops : List WOp) (hc : 10 ≤ s.cap) (hinv : s.Inv)
+    (hok : ∀ op ∈ ops, op.ok s.cap) :
+    (Cpp.run s ops).abs = s.abs ++ (ops.map WOp.spec).flatten ∧ (Cpp.run s ops).Inv :=
+  Cpp.run_spec ops s hc hinv hok
+
+/-- Same for the Python `CodedOutputStream` model (`ensure_capacity`/`write_byte_no_check`,
+    `write_unsigned_varint`, `write`, `write_bytes`). `WOp.ok` excludes `byteNoCheck`, the
+    unchecked byte write the Python runtime issued before the `fix:` commit 00e76b6. -/
+theorem py_writer_refines (s : COS) (ops : List WOp) (hc : 10 ≤ s.cap) (hinv : s.Inv)
+    (hok : ∀ op ∈ ops, op.ok s.cap) :
+    (Py.run s ops).abs = s.abs ++ (ops.map WOp.spec).flatten ∧ (Py.run s ops).Inv :=
+  Py.run_spec ops s hc hinv hok
+
+/-- The C++ `CodedInputStream` model returns what the format says, wherever the refill
+    boundaries fall: capacity ≥ 10, any split of the pending bytes between buffer window and
+    underlying stream. One theorem per primitive read. -/
+theorem cpp_reader_refines_var64 (s : CIS) (hc : 10 ≤ s.cap) (hinv : s.Inv) (n : Nat) (rest : Bytes)
+    (hn : n < 2 ^ 64) (hp : s.pending = encVar n ++ rest) :
+    ∃ s', s.readVar64 = .ok n s' ∧ s'.pending = rest ∧ s'.Inv ∧ s'.cap = s.cap :=
+  CIS.readVar64_ok s hc hinv n rest hn hp
+
+theorem cpp_reader_refines_var32 (s : CIS) (hc : 10 ≤ s.cap) (hinv : s.Inv) (n : Nat) (rest : Bytes)
+    (hn : n < 2 ^ 32) (hp : s.pending = encVar n ++ rest) :
+    ∃ s', s.readVar32 = .ok n s' ∧ s'.pending = rest ∧ s'.Inv ∧ s'.cap = s.cap :=
+  CIS.readVar32_ok s hc hinv n rest hn hp
+
+theorem cpp_reader_refines_byte (s : CIS) (hc : 0 < s.cap) (hinv : s.Inv) (b : UInt8) (rest : Bytes)
+    (hp : s.pending = b :: rest) :
+    ∃ s', s.readByte = .ok b s' ∧ s'.pending = rest ∧ s'.Inv ∧ s'.cap = s.cap :=
+  CIS.readByte_ok s hc hinv b rest hp
+
+theorem cpp_reader_refines_bytes (s : CIS) (hc : 0 < s.cap) (hinv : s.Inv) (bs rest : Bytes)
+    (hp : s.pending = bs ++ rest) :
+    ∃ s', s.readBytes bs.length = .ok bs s' ∧ s'.pending = rest ∧ s'.Inv ∧ s'.cap = s.cap :=
+  CIS.readBytes_ok s hc hinv bs rest hp
+
+/-! Non-vacuity of the stream theorems: a nearly full 10-byte buffer, a varint that must straddle. -/
+example : (⟨10, [1, 2, 3, 4, 5, 6, 7, 8], [], false⟩ : COS).Inv := by simp [COS.Inv]
+example : (WOp.var64 300).ok 10 := by simp [WOp.ok]
+example : (⟨10, [0xac], false, [0x02, 0x07]⟩ : CIS).Inv ∧
+    (⟨10, [0xac], false, [0x02, 0x07]⟩ : CIS).pending = encVar 300 ++ [0x07] := by
+  refine ⟨by simp [CIS.Inv], ?_⟩
+  simp [CIS.pending, encVar]
 
 /-! Non-vacuity: a concrete protocol with a record, an optional, a union, a vector, a map and a
     stream meets the hypotheses. -/
